@@ -146,7 +146,7 @@ pub fn corpus() -> Vec<(String, String)> {
 /// check runs them first, in a child process, as hard regression inputs: a crash is a failing input of the
 /// property, reported with the probe's source.  Nothing is gated.
 pub const GATES: [(&str, &str); 18] = [
-    ("FOR-IN-DEFAULT", "fn f(b: int = { for i in [1] { }; 2 }) -> int { b }\n"),
+    ("D84", "fn f(b: int = { for i in [1] { }; 2 }) -> int { b }\n"),
     ("D79", "type G = { v: array<int> }\nimplement Index for G {\n  fn index_get(self, index: int) -> int { self.v[index] }\n  fn index_set(self, index: int, val: int) -> void { self.v[index] = val }\n}\nlet g = G([1, 2, 3])\ng[1] += 2\nprintln(g[1])\n"),
     ("D80", "fn f(a: int, b: int = { let t = 3; t + 1 }) -> int { a + b }\nprintln(f(1))\n"),
     ("D82", "use lib1 as u\nlet c = u.Col.Rgb(2, 1)\nlet p = u.Pt(1, 5)\nprintln(u.Pt.m(p, 1))\nlet f = u.sub\nlet k = u.Pt\n\x1etype Col = Rgb(int, int) | Gray\ntype Pt = { x: int, y: int }\ntype Bx<T> = { v: T }\nextend Pt {\n  fn m(self, d: int) -> int { self.x + d }\n  fn mk(a: int) -> Pt { Pt(a, a) }\n}\ninterface Sp {\n  fn say(self: Self) -> string\n}\nimplement Sp for Pt {\n  fn say(self) -> string { \"pt\" }\n}\nfn sub(a: int, b: int = 1) -> int { a - b }\nfn mkpt() -> Pt { Pt(1, 2) }\n"),
